@@ -112,6 +112,20 @@ theorem lsum_eq {M : Type} [AddCommMonoid M] (l : List ℕ) (f : ℕ → M) : ls
 
 theorem logFr_spec (n : ℕ) : Impl.logFr n = Fr.spec 0 n := rfl
 
+theorem foldAdd_eq {M : Type} [AddCommMonoid M] (m : ℕ) (S : ℕ → M) :
+    foldRange m (fun acc j => acc + S (0 + j)) 0 = ∑ n ∈ range m, S n := by
+  induction m with
+  | zero => simp [foldRange]
+  | succ m ih => rw [foldRange_succ, ih, Finset.sum_range_succ, Nat.zero_add]
+
+/-- `ave_sqresults = 0; for n in range(T - n_t): ave_sqresults += S n` -/
+theorem sq4Sum_eq {M : Type} [AddCommMonoid M] (T nt : ℕ) (S : ℕ → M) :
+    Impl.sq4Sum T nt S = ∑ n ∈ range (T - nt), S n := by
+  unfold Impl.sq4Sum forRange sq4Lo sq4Hi
+  rw [Nat.sub_zero, foldAdd_eq]
+
+theorem sq4Fr_spec (n nt : ℕ) : Impl.sq4Fr n nt = Fr.spec n (n + nt) := rfl
+
 /-! ### wrapped vs unwrapped -/
 section wrapped
 open Pms.Pbc
